@@ -30,6 +30,7 @@ LEVEL_TEXT = ("Exploration by generated-input search with the library's sync mod
               "(identity for containers), paths and parts in the same order, or raise the same error class; the same with "
               "async item getters that yield to the event loop, and for 4 evaluations gathered concurrently on one loop.")
 LEVEL_TEXT += ' Also: 24 uses of the filter-context identifier (bare, rooted, nested, as function argument) x 6 contexts (none, empty, populated) x {child, descendant} x {plain, async-getter}, exhaustive.'
+LEVEL_TEXT += ' Also exhaustive: 20 queries whose nested filters refer to the root / fake root / filter context from two or three levels down x 3 documents x 2 contexts x {plain, async-getter}.'
 BUDGET_S = {"quick": 75, "thorough": 600}
 RULE = ("Queries from the standard and extension generators (simple and compound, with filter context) over documents in "
         "which strings and scalars are reachable by wildcard, slice, descendant and filter selectors. Non-trivial = non-empty "
